@@ -220,6 +220,22 @@ def draw(detector, p0=0.0, n=1, sync=False, first=0.0, pause=0.0):
     detector.signal.array = np.zeros((geo.row, geo.col))
 
 
+def calprobe(detector, pattern, gain=1.0, bias=0.0):
+    """pixel += gain * pattern + bias (calibration cases: `gain` and `bias` are the fitted variables; an instance
+    that is switched off must leave no trace in the simulated data)"""
+    p = np.array(pattern, dtype=float)
+    try:
+        prev = np.array(detector.pixel.array, dtype=float)
+    except Exception:  # noqa: BLE001  (not initialised yet)
+        prev = np.zeros(p.shape)
+    detector.pixel.array = prev + float(gain) * p + float(bias)
+
+
+def absdiff(simulated, target, weighting=None):
+    """figure of merit of the calibration cases: sum |target - simulated| (exact on dyadic data)"""
+    return float(np.nansum(np.abs(np.asarray(target, dtype=float) - np.asarray(simulated, dtype=float))))
+
+
 class SlowProblem:
     """A tiny pygmo problem whose evaluation time depends on the candidate (C07 islands / DaskBFE)."""
 
